@@ -379,10 +379,14 @@ func standaloneNests() family {
 
 // scanDepth returns the deepest container/tag nesting a reader reaches in b before the first
 // malformation (lenient structural scan of the first data item, explicit stack, own code).
-// Byte-string contents are not entered. Used only to scale the memory bound: re-decoding a
+// Used only to scale the memory bound: re-decoding a
 // nested item once per enclosing level is the designed cost of the decoders (depth is capped
 // at 256 by the decoder configuration), allocation driven by a claimed length is not.
-func scanDepth(b []byte) int {
+func scanDepth(b []byte) int { return scanDepthEmb(b, 2) }
+
+// scanDepthEmb: as above; the content of a definite byte string is scanned as embedded CBOR
+// for up to emb levels (decoders that open tag-24 / address payloads pay the inner depth too).
+func scanDepthEmb(b []byte, emb int) int {
 	type frame struct {
 		rem   int64 // remaining items; -1 = indefinite
 		isStr bool  // indefinite string: only definite chunks allowed
@@ -438,6 +442,11 @@ func scanDepth(b []byte) int {
 				}
 				if arg > uint64(len(b)-p) {
 					return max
+				}
+				if major == 2 && emb > 0 && arg >= 2 {
+					if d := len(st) + scanDepthEmb(b[p:p+int(arg)], emb-1); d > max {
+						max = d
+					}
 				}
 				p += int(arg)
 			case 4:
